@@ -36,7 +36,7 @@ Print Assumptions Links.Rewrite.chain_scrub_is_forward.
 Print Assumptions Links.Rewrite.chain_queue_is_forward.
 Print Assumptions Links.Rewrite.chain_first_request_is_forward.
 Print Assumptions Links.Rewrite.chain_later_request_is_forward.
-Print Assumptions Links.Rewrite.chain_first_request_port_differ.
+Print Assumptions Links.Rewrite.chain_first_request_port_regression.
 
 (* ---- 3. handle_data / _parse_first_request ---- *)
 Print Assumptions Links.ParseErrors.parse_exn_kinds.
